@@ -12,6 +12,7 @@ A Sub is either Hypothesis-driven (strategy -> JSON-serialisable case) or an enu
 code under test and returns an Outcome.  Nothing here consults a wall clock for a verdict.
 """
 import faulthandler
+import errno
 import hashlib
 import json
 import os
@@ -71,6 +72,10 @@ def _frames(tb):
 
 def classify_exception(exc):
     """Return ('sut', sig) if the innermost frame that belongs to /repo or /verif is a /repo frame."""
+    # the machine running out of threads, memory or file descriptors says nothing about the library
+    if isinstance(exc, MemoryError) or (isinstance(exc, RuntimeError) and "can't start new thread" in str(exc)) or (
+            isinstance(exc, OSError) and getattr(exc, 'errno', None) in (errno.EMFILE, errno.ENFILE, errno.ENOMEM, errno.EAGAIN)):
+        return 'harness', None
     frames = _frames(exc.__traceback__)
     for fn, func, _ in reversed(frames):
         if fn.startswith(REPO + os.sep):
